@@ -3,7 +3,8 @@
 // of the previous transfers (task threads) and, optionally, a receiver thread run; a fourth send
 // follows after the window.  Every schedule within the budgets is executed.  Oracle: the receiver
 // sees tags in strictly increasing order, each at most once, only tags whose send was accepted,
-// and - no queue can be full with four small messages - all of them.
+// and - no queue can be full with four small messages - all of them.  A variant adds a thread that
+// grows and shrinks NNG_OPT_SENDBUF meanwhile (a shrink to 3 still holds what can be queued).
 #ifndef ORDERRACE_H
 #define ORDERRACE_H
 #include "vpeer.h"
@@ -19,6 +20,7 @@ typedef struct orc_arg {
 	int sub; // rx needs an empty subscription
 } orc_arg;
 static int orc_plain; // no warm-up, no receiver thread (one configuration instead of six)
+static int orc_resize; // plain configuration plus a thread that grows the send buffer meanwhile
 
 static nng_socket orc_tx, orc_rx;
 static int        orc_acc[8], orc_got[8], orc_seq[16], orc_nseq;
@@ -70,6 +72,14 @@ orc_sender(void *a)
 	return NULL;
 }
 static void *
+orc_resizer(void *a)
+{
+	(void) a;
+	nng_socket_set_int(orc_tx, NNG_OPT_SENDBUF, 16); // (8 -> 16; ENOTSUP where there is none)
+	nng_socket_set_int(orc_tx, NNG_OPT_SENDBUF, 3);  // shrink: still room for what is queued
+	return NULL;
+}
+static void *
 orc_receiver(void *a)
 {
 	(void) a;
@@ -116,15 +126,21 @@ orc_run(void *arg)
 				orc_take(m);
 		}
 	}
-	pthread_t ts, tr;
+	pthread_t ts, tr, tz;
+	vs_alloc_points = orc_resize; // the resize rebuilds the queue: let others in at its allocator calls
 	vs_window(1);
 	pthread_create(&ts, NULL, orc_sender, NULL);
 	if (reader)
 		pthread_create(&tr, NULL, orc_receiver, NULL);
+	if (orc_resize)
+		pthread_create(&tz, NULL, orc_resizer, NULL);
 	pthread_join(ts, NULL);
 	if (reader)
 		pthread_join(tr, NULL);
+	if (orc_resize)
+		pthread_join(tz, NULL);
 	vs_window(0);
+	vs_alloc_points = 0;
 	vs_settle();
 	orc_send(3);
 	// drain until two consecutive rounds bring nothing (each receive may release the next
@@ -165,8 +181,10 @@ static void
 orc_explore(const orc_arg *a, int preempt, int total, int plain)
 {
 	char nm[64];
-	orc_plain = plain;
-	snprintf(nm, sizeof(nm), "order-race-%s%s-p%d-t%d", a->name, plain ? "-plain" : "", preempt, total);
+	orc_plain  = plain != 0;
+	orc_resize = plain == 2;
+	snprintf(nm, sizeof(nm), "order-race-%s%s-p%d-t%d", a->name,
+	    plain == 2 ? "-resize" : plain ? "-plain" : "", preempt, total);
 	vx_cfg c;
 	memset(&c, 0, sizeof(c));
 	c.prop     = a->prop;
@@ -187,11 +205,13 @@ orc_explore(const orc_arg *a, int preempt, int total, int plain)
 static void
 orc_explore_tiers(const orc_arg *a)
 {
-	if (vx_is_thorough())
+	if (vx_is_thorough()) {
 		orc_explore(a, 2, 2, 0);
-	else {
+		orc_explore(a, 2, 2, 2);
+	} else {
 		orc_explore(a, 2, 2, 1);
 		orc_explore(a, 1, 2, 0);
+		orc_explore(a, 1, 2, 2);
 	}
 }
 #endif
